@@ -2,6 +2,7 @@
 """Apply a seeded change to /repo, run the given checks (quick tier), undo the change.  Usage:
    tools/eval_mutant.py <patch.diff> [Cxx ...]    (default: all claimed checks)"""
 import json
+import os
 import subprocess
 import sys
 import time
@@ -20,7 +21,8 @@ res = {}
 try:
     for p in props:
         t = time.time()
-        r = subprocess.run(["./check", p, "--tier", "quick"], cwd="/verif", capture_output=True, text=True)
+        env = dict(os.environ, BB_EVIDENCE_DIR="/var/tmp/bbverif.mutant-evidence")      # never overwrite the committed evidence
+        r = subprocess.run(["./check", p, "--tier", "quick"], cwd="/verif", capture_output=True, text=True, env=env)
         lines = [l for l in r.stdout.splitlines() if l.startswith("VIOLATION")]
         res[p] = (r.returncode, len(lines), (lines[0][-60:] if lines else ""), round(time.time() - t))
         what = ""
